@@ -3,6 +3,6 @@ CONSTANTS
   Scenarios <- Thorough
   MaxTurns = 5
   Defects = {}
-INVARIANTS PostStopOnce NeverLongLived PassivatedStops
+INVARIANTS PostStopOnce NeverLongLived PassivatedStops HeapConsistent
 PROPERTIES IdleAtDecision FlagsAtDecision CountAtDecision
 CHECK_DEADLOCK FALSE
